@@ -38,6 +38,7 @@ func BeforeLock(mu *sync.Mutex) {
 	if f == nil {
 		return
 	}
+	f("beforelock") // 无竞争时也是一个调度点：取锁之前别的任务可以先运行
 	for !mu.TryLock() {
 		Probe("lock.contended")
 		f("lockwait")
